@@ -25,7 +25,7 @@ CONSTANTS
   GIdents <- GIdentsC
   GActions = {"update", "error_update"}
   GLevels <- GLevelsC
-  EmitOneIn = 6
+  EmitOneIn = 12
   MaxCbs = 3
   MaxWait = 1
   Depth = 4
